@@ -571,6 +571,9 @@ def long_atom_case(args):
         # the same function with its (first) argument under a long name, and itself under a long name
         g = A.Func(f.name + "_with_a_long_function_name", f.res, [(a, LONGARG if i == 0 else n) for i, (a, n) in enumerate(f.args)])
         fs.append(g)
+    # one function that needs every kind of iso_c_binding at once (the use / import statements list them all)
+    T = A.NATIVE
+    fs.append(A.Func("every_kind_of_argument_in_one_call", A.BoolRes(), [(A.Val(T[tn]), "k%d" % i) for i, tn in enumerate(sorted(T))] + [(A.BoolVal(), "flag"), (A.CStrIn(), "text")]))
     lib = A.Library("Lname", fs, lang)
     r, tree = gen.gen_tree(workdir, lib.yaml({"wrap_python": False, "wrap_lua": False, "F_CFI": cfi}))
     if r.status != "ok":
